@@ -19,7 +19,9 @@ def main(tier="quick", seed=1):
     if not os.path.exists(os.path.join(LLVM, "llvm-cov")):
         print("coverage: llvm-tools not available; skipped")
         return 0
+    os.makedirs(os.path.join(COVDIR, "buildprof"), exist_ok=True)
     env = dict(os.environ, CARGO_NET_OFFLINE="true", CARGO_TARGET_DIR=COVDIR,
+               LLVM_PROFILE_FILE=os.path.join(COVDIR, "buildprof", "b-%p-%m.profraw"),   # build scripts / proc macros: keep /repo clean
                RUSTFLAGS="--cfg margined_verif --check-cfg cfg(margined_verif) -A unexpected_cfgs -C instrument-coverage")
     rc, out = sh(["cargo", "build", "--release", "--offline", "--quiet"], cwd=HARNESS, env=env, timeout=3600)
     if rc != 0:
